@@ -449,7 +449,10 @@ def reject_case(draw):
     nd = len(c["g"]["n"])
     c["axis"] = draw(st.integers(0, nd - 1))
     n = c["g"]["n"][c["axis"]]
-    c["kind"] = draw(st.sampled_from(["value-outside", "range-outside", "region-outside", "unknown-dim", "two-dims"]))
+    c["kind"] = draw(st.sampled_from(["value-outside", "range-outside", "region-outside", "unknown-dim", "two-dims",
+                                      "value-nonfinite", "range-nonfinite"]))
+    c["nonfinite"] = draw(st.sampled_from(["nan", "inf", "-inf"]))
+    c["nf_type"] = draw(st.sampled_from(["float", "float64", "float32"]))
     c["side"] = draw(st.integers(0, 1))
     c["margin"] = draw(st.sampled_from([0.05, 0.5, 1.0, 3.0]))
     c["inner"] = draw(axis_spec(n))
@@ -480,7 +483,18 @@ def check_reject(case):
             return
         raise Violation(f"outside-accepted:{kind}", f"{what} accepted: {type(r).__name__}")
 
-    if kind == "value-outside":
+    if kind in ("value-nonfinite", "range-nonfinite"):
+        # a coordinate that is no position at all (NaN) or infinitely far away lies in no cell: refused
+        bad = {"float": float, "float64": np.float64, "float32": np.float32}[case["nf_type"]](case["nonfinite"])
+        with np.errstate(all="ignore"):
+            if kind == "value-nonfinite":
+                expect(lambda: f.sel(**{dims[d]: bad}), f"sel({dims[d]}={bad!r})")
+                expect(lambda: mesh.sel(**{dims[d]: bad}), f"mesh.sel({dims[d]}={bad!r})")
+            else:
+                pair = (bad, inner) if case["side"] == 0 else (inner, bad)
+                expect(lambda: f.sel(**{dims[d]: pair}), f"sel({dims[d]}={pair!r})")
+                expect(lambda: mesh.sel(**{dims[d]: list(pair)}), f"mesh.sel({dims[d]}={list(pair)!r})")
+    elif kind == "value-outside":
         expect(lambda: f.sel(**{dims[d]: out}), f"sel({dims[d]}={out})")
         expect(lambda: mesh.sel(**{dims[d]: out}), f"mesh.sel({dims[d]}={out})")
     elif kind == "range-outside":
